@@ -250,9 +250,10 @@ def _lockset_census(ctx: Context) -> None:
                         while wst is not None and not isinstance(wst, ast.stmt):
                             wst = parent(wst)
                         blk = parent(wst)
-                        sibs = getattr(blk, "body", []) if blk is not None else []
-                        if wst in sibs:
-                            later = [y for s_ in sibs[sibs.index(wst) + 1:] for y in ast.walk(s_)
+                        sibs = next((lst_ for fld_ in ("body", "orelse", "finalbody") for lst_ in [getattr(blk, fld_, None)] if isinstance(lst_, list) and any(z is wst for z in lst_)), []) \
+                            if blk is not None else []
+                        if any(z is wst for z in sibs):
+                            later = [y for s_ in sibs[next(k_ for k_, z in enumerate(sibs) if z is wst) + 1:] for y in ast.walk(s_)
                                      if isinstance(y, ast.Attribute) and isinstance(y.value, ast.Name) and y.value.id == "self" and not isinstance(y.ctx, ast.Load) and y.attr != fld]
                             if later:
                                 early.append((wx, later[0]))
